@@ -15,6 +15,7 @@ import ast
 
 from sa import mutate as M
 from sa import pattern as PT
+from sa import values as VX
 from sa.ctx import Ctx
 from sa.loader import AnalysisError, call_name, norm, own_nodes, parent
 from sa.ranges import refusal_constraints
@@ -45,10 +46,13 @@ def rule_same_hash_type(ctx: Ctx, rep: Report) -> None:
     rep.ob(rule, "ecdsa:suffix_one_byte", bool(sfx) and norm(sfx[0].value) == f"sig + {suffix_var}.to_bytes(1, 'big')", fi.where(), "signature || one hash-type byte")
     ts = ctx.func(f"{P}._taproot_signature")
     txt = PT.text(ts)
-    rep.ob(rule, "taproot:suffix", "hash_type = psbt_in.sig_hash_type or DEFAULT" in txt and "if not hash_type: return sig" in txt and "return sig + hash_type.to_bytes(1, 'big')" in txt, ts.where(), "DEFAULT appends nothing; any other type is appended")
+    vx = VX.of(ts)
+    rep.ob(rule, "taproot:suffix", vx.returns("$$sig + (psbt_in.sig_hash_type or DEFAULT).to_bytes(1, 'big') if psbt_in.sig_hash_type or DEFAULT else $$sig")
+           or vx.returns("$$sig + psbt_in.sig_hash_type.to_bytes(1, 'big') if psbt_in.sig_hash_type else $$sig"), ts.where(), "DEFAULT appends nothing; any other type is appended")
     th = ctx.func(f"{P}._taproot_sig_hash")
     txt = PT.text(th)
-    rep.ob(rule, "taproot:digest_default", "if hash_type is None: hash_type = psbt_in.sig_hash_type or DEFAULT" in txt, th.where(), "the digest's default is the same `sig_hash_type or DEFAULT`")
+    vx = VX.of(th)
+    rep.ob(rule, "taproot:digest_default", vx.anywhere("psbt_in.sig_hash_type or DEFAULT if hash_type is None else hash_type"), th.where(), "the digest's default is the same `sig_hash_type or DEFAULT`")
     for q in (f"{P}._sign_taproot_key_path", f"{P}._sign_taproot_script_path"):
         f2 = ctx.func(q)
         calls = [c for c in own_nodes(f2.node) if isinstance(c, ast.Call) and call_name(c) == "taproot_sig_hash"]
@@ -57,7 +61,8 @@ def rule_same_hash_type(ctx: Ctx, rep: Report) -> None:
         rep.ob(rule, f"{f2.name}:default_digest_and_suffix", ok, f2.where(), "digest computed with the input's own type and suffix written by _taproot_signature(sig, psbt_in)")
     at = ctx.func(f"{P}._assert_taproot_sig_hash_type")
     txt = PT.text(at)
-    rep.ob(rule, "taproot:finalizer_reads_back", "hash_type = signature[-1] if len(signature) == 65 else DEFAULT" in txt and "(psbt_in.sig_hash_type or DEFAULT) != hash_type" in txt, at.where(), "the finalizer reads the suffix rule back and compares with the input's type")
+    vx = VX.of(at)
+    rep.ob(rule, "taproot:finalizer_reads_back", vx.anywhere("(psbt_in.sig_hash_type or DEFAULT) != (signature[-1] if len(signature) == 65 else DEFAULT)"), at.where(), "the finalizer reads the suffix rule back and compares with the input's type")
 
 
 def rule_finalize_verifies(ctx: Ctx, rep: Report) -> None:
@@ -162,7 +167,7 @@ def rule_message_roles(ctx: Ctx, rep: Report) -> None:
     fi = ctx.func(f"{b3}.assert_as_valid")
     txt = PT.text(fi)
     g3 = ctx.cfg(fi)
-    rep.ob(rule, "bip322:to_spend_binds_address", "script_pub_key = ScriptPubKey.from_address(addr).script" in txt and "spend = to_spend(msg, script_pub_key)" in txt, fi.where(), "to_spend commits to the message and the address's script")
+    rep.ob(rule, "bip322:to_spend_binds_address", VX.of(fi).anywhere("to_spend(msg, ScriptPubKey.from_address(addr).script)"), fi.where(), "to_spend commits to the message and the address's script")
     sc = [c for c in own_nodes(fi.node) if isinstance(c, ast.Call) and call_name(c) == "_assert_scripts"]
     bm = [c for c in own_nodes(fi.node) if isinstance(c, ast.Call) and norm(c.func) == "bms.assert_as_valid"]
     ok3 = bool(sc) and bool(bm) and g3.must_pass([i for c in sc + bm for i in g3.nodes_containing(c)]) is None
